@@ -147,11 +147,29 @@ pub struct NewerOptionMatcher {
 
 impl NewerOptionMatcher {
     pub fn new(x_option: &str, y_option: &str, path_to_file: &str) -> Result<Self, Box<dyn Error>> {
-        let metadata = fs::metadata(path_to_file)?;
+        Self::from_metadata(x_option, y_option, &fs::metadata(path_to_file)?)
+    }
+
+    /// Like `-newer`, a reference file that is a symbolic link is followed
+    /// only under -H, -L and -follow.
+    pub fn with_follow(
+        x_option: &str,
+        y_option: &str,
+        path_to_file: &str,
+        follow: Follow,
+    ) -> Result<Self, Box<dyn Error>> {
+        Self::from_metadata(x_option, y_option, &follow.root_metadata(path_to_file)?)
+    }
+
+    fn from_metadata(
+        x_option: &str,
+        y_option: &str,
+        metadata: &Metadata,
+    ) -> Result<Self, Box<dyn Error>> {
         let x_option = NewerOptionType::from_str(x_option);
         let y_option = NewerOptionType::from_str(y_option);
         // The reference file contributes its Y timestamp ...
-        let given_modification_time = y_option.get_file_time(&metadata)?;
+        let given_modification_time = y_option.get_file_time(metadata)?;
         Ok(Self {
             x_option,
             y_option,
